@@ -446,6 +446,20 @@ cmd_core (long n, long nsalted)
       des_set_key (&ctx, key);
       des_set_salt (&ctx, salt);
       des_crypt_block (&ctx, got, blk, cnt, false);
+      if ((i & 3) == 0)
+        {
+          /* key and salt are independent parts of the context: the order of loading them must not matter,
+             and re-keying keeps the salt */
+          struct des_ctx c2;
+          unsigned char g2[8];
+          memset (&c2, 0, sizeof c2);
+          des_set_salt (&c2, salt);
+          des_set_key (&c2, key);
+          des_crypt_block (&c2, g2, blk, cnt, false);
+          n_cmp++;
+          hex8 (hk, key);
+          if (memcmp (g2, got, 8)) viol ("core-salt-then-key", "des_set_salt before des_set_key gives another result than after it key=%s salt=%u", hk, salt);
+        }
       hex8 (hk, key); hex8 (hb, blk); hex8 (ho, got);
       printf ("S %s %u %u %s %s\n", hk, salt, cnt, hb, ho);
     }
